@@ -152,3 +152,21 @@ Example C10_ex :
              (Ok (1 # 10, 2 # 10)) = true.
 Proof. vm_compute. repeat split. Qed.
 Print Assumptions C10_ex.
+
+(* ---- two helpers of the export as READ FROM THE SOURCE (Gen/Source.v is regenerated from
+   soundevent/io/crowsetta/bbox.py and segment.py on every run) ---- *)
+From SE Require Gen.Source Gen.SrcCrow.
+From SE Require Import Gen.Prelude.
+
+Theorem C10_src_convert_geometry_to_bbox : forall g cast rot,
+  Source.convert_geometry_to_bbox g cast rot =
+  if negb (is_bbox g) && negb cast then Err EValue
+  else if is_time_geometry g && rot then Err EValue
+  else py_compute_bounds g.
+Proof. exact SrcCrow.src_convert_geometry_to_bbox. Qed.
+Print Assumptions C10_src_convert_geometry_to_bbox.
+
+Theorem C10_src_convert_time_to_sample : forall sr t, 0 <= t * sr ->
+  Source.convert_time_to_sample sr t = Ok (time_to_sample t sr).
+Proof. exact SrcCrow.src_convert_time_to_sample. Qed.
+Print Assumptions C10_src_convert_time_to_sample.
